@@ -407,10 +407,12 @@ def _upstream_of_loops(spec: dict) -> set[int]:
     return out
 
 
-def choose_failure(rng: random.Random, spec: dict, escape_prob: float = 0.3, loop_upstream_prob: float = 0.12) -> dict | None:
+def choose_failure(rng: random.Random, spec: dict, escape_prob: float = 0.3, loop_upstream_prob: float = 0.12,
+                   job_prob: float = 0.5) -> dict | None:
     """copy of the spec with one injected failure:
     * a transformer raises on one of the tags it processes (`Transformer.run` catches it: the step ends FAILED and the
       failure travels as TerminationToken(FAILED)), or
+    * one job of a job pipeline returns a FAILED CommandOutput (`ExecuteStep.run` cancels its pending jobs), or
     * (mode "escape") a scatter step is fed a non-list value through an inserted `sum` transformer: `ScatterStep.run`
       does not catch the WorkflowDefinitionException, which reaches `StreamFlowExecutor._handle_exception` -> close()."""
     den = py_den(spec)
@@ -427,6 +429,14 @@ def choose_failure(rng: random.Random, spec: dict, escape_prob: float = 0.3, loo
         nodes[sid + 1]["ins"][0] = newp
         for i, n in enumerate(nodes):
             n["id"] = i
+        return spec
+    feeds = _upstream_of_loops(spec)
+    jobs = [(n["id"], tag) for n in spec["nodes"] if n["kind"] == "exec" and n["id"] not in feeds for tag in den[n["ins"][0]]]
+    if jobs and rng.random() < job_prob:
+        # one job of a schedule/transfer/execute pipeline fails (CommandOutput FAILED): ExecuteStep cancels its other jobs
+        nid, tag = rng.choice(jobs)
+        spec = json.loads(json.dumps(spec))
+        spec["nodes"][nid]["fail"] = {"job_tag": tag}
         return spec
     cands = [(n["id"], tag) for n in spec["nodes"] if n["kind"] == "tf" for tag in den[n["ins"][0]]]
     # a failure upstream of a loop input dead-locks the LoopCombinatorStep (known finding of C04, every occurrence costs
@@ -528,7 +538,8 @@ async def build(context, spec: dict, workdir: str):
             from tests.utils.workflow import EvalCommandOutputProcessor
             step.add_output_port("o0", ports[n["outs"][0]], EvalCommandOutputProcessor("o0", workflow, "primitive"))
             from sfv.rt import wfsteps
-            step.command = wfsteps.GenCommand(step, k=n.get("k", 0), nin=len(n["ins"]))
+            step.command = wfsteps.GenCommand(step, k=n.get("k", 0), nin=len(n["ins"]),
+                                              fail_tag=(n.get("fail") or {}).get("job_tag"))
             node_steps[n["id"]] = sorted(set(workflow.steps) - before)
             continue
         else:
